@@ -38,8 +38,8 @@ class MySQLValueWrapper(ValueWrapper):
             value = value.replace(tzinfo=None)
             return format_quotes(value.isoformat(), quote_char)
         elif isinstance(value, (dict, list)):
-            value = format_quotes(json.dumps(value), quote_char)
-            return value.replace("\\", "\\\\")
+            value = json.dumps(value).replace(quote_char, quote_char * 2)
+            return format_quotes(value.replace("\\", "\\\\"), quote_char)
         return super().get_value_sql(ctx)
 
 
